@@ -31,6 +31,19 @@ CHECK_DEADLOCK FALSE
 INVARIANT ObsMatchesImpl
 INVARIANT TypeOK
 """
+# memory map of the mips images: code 0x1000.., data 0x18000.. (an address whose lower half is 0x8000), stack below SP
+DATA_AT = 0x18000
+SP = 0x3F000
+RA = 0x3FFF0
+LAYOUT = ("MEMORY flash LOCATION=0x1000 SIZE=0x10000 { SECTION(code) }\n"
+          "MEMORY ram LOCATION=0x%x SIZE=0x20000 { SECTION(data) }\n" % DATA_AT)
+
+
+def overlap(img):
+    spans = sorted((g["addr"], g["addr"] + len(g["bytes"])) for g in img["segs"])
+    return any(a[1] > b[0] for a, b in zip(spans, spans[1:])) or any(e > SP - 0x1000 for _, e in spans)
+
+
 MC_LAWS = ["LawDelaySlot", "LawLoadExtension", "LawHiLo", "LawWritesOnly", "LawReadsOnly", "LawLink", "LawOverflow"]
 
 
@@ -256,12 +269,12 @@ def prepare(ctx, programs):
                     rt = runtime_object(ctx)
                     if rt is not None:
                         objs.append(rt)
-                linked = rl.link_objects(objs, rl.LAYOUT_SPLIT)
+                linked = rl.link_objects(objs, LAYOUT)
                 img = rl.image_of(linked, p["fn"], globs)
             except Exception as e:
                 variants.append((label, None, "error:link:" + type(e).__name__, tg))
                 continue
-            if img is None or rl.images_overlap(img):
+            if img is None or overlap(img):
                 variants.append((label, None, "error:image", tg))
                 continue
             h = native.digest(repr((img["segs"], img["entry"])).encode())
@@ -283,14 +296,14 @@ def micro(ctx):
     cases = []
     # v0 = a0 + a1 + g; g = v0; the instruction in the delay slot of jr (addiu v0, v0, 1) is executed before the return
     src = ["global main", "global g", "section code", "main:",
-           lambda: I.Addu(R.v0, R.a0, R.a1), lambda: I.Lui(t0, 0), lambda: I.Ori(t0, t0, rl.DATA_AT),
+           lambda: I.Addu(R.v0, R.a0, R.a1), lambda: I.Lui(t0, DATA_AT >> 16), lambda: I.Ori(t0, t0, DATA_AT & 0xFFFF),
            lambda: I.Lw(R.r9, 0, t0), lambda: I.Addu(R.v0, R.v0, R.r9), lambda: I.Sw(R.v0, 0, t0),
            lambda: I.Jr(R.lr), lambda: I.Addiu(R.v0, R.v0, 1),
            "section data", "g:", "dd 0x11223344"]
     obj = rl.build_object(MARCH, src)
-    img = rl.image_of(rl.link_objects([obj], rl.LAYOUT_SPLIT), "main", [("g", 4)])
+    img = rl.image_of(rl.link_objects([obj], LAYOUT), "main", [("g", 4)])
     calls = [{"regs": [[4, L(5)], [5, L(7)]], "stk": []}, {"regs": [[4, L(-1)], [5, L(2)]], "stk": []}]
-    cases.append({"id": "micro-mips", "imgs": [img], "calls": calls, "sp": rl.SP, "ra": rl.RA, "keep": [], "fuel": 50,
+    cases.append({"id": "micro-mips", "imgs": [img], "calls": calls, "sp": SP, "ra": RA, "keep": [], "fuel": 50,
                   "expect": {"status": "ok", "a0": [L(0x11223344 + 13), L(0x11223346)],
                              "globals": [[{"name": "g", "bytes": L(0x11223344 + 12)}], [{"name": "g", "bytes": L(0x11223345)}]]}})
     # jal links to pc + 8 and runs its delay slot first: main: jal h ; addiu a0, a0, 1 ; jr saved ; nop   h: jr ra ; addu v0, a0, a0
@@ -298,7 +311,7 @@ def micro(ctx):
            lambda: I.Addiu(R.a0, R.a0, 1), lambda: I.Jr(R.r9), nop, "h:", lambda: I.Jr(R.lr), lambda: I.Addu(R.v0, R.a0, R.a0)]
     obj = rl.build_object(MARCH, src)
     img = rl.image_of(rl.link_objects([obj], "MEMORY flash LOCATION=0x1000 SIZE=0x100 { SECTION(code) }\n"), "main", [])
-    cases.append({"id": "micro-jal", "imgs": [img], "calls": [{"regs": [[4, L(20)]], "stk": []}], "sp": rl.SP, "ra": rl.RA, "keep": [],
+    cases.append({"id": "micro-jal", "imgs": [img], "calls": [{"regs": [[4, L(20)]], "stk": []}], "sp": SP, "ra": RA, "keep": [],
                   "fuel": 50, "expect": {"status": "ok", "a0": [L(42)], "globals": [[]]}})
     for name, body, st in (("loop", ["main:", lambda: I.J("main"), nop], "fuel"),
                            ("wild", ["main:", lambda: I.Jr(R.r0), nop], "fault"),
@@ -307,7 +320,7 @@ def micro(ctx):
                            ("resv", ["main:", "dd 0xFFFFFFFF"], "outofmodel")):
         obj = rl.build_object(MARCH, ["global main", "section code"] + body)
         img = rl.image_of(rl.link_objects([obj], "MEMORY flash LOCATION=0x1000 SIZE=0x100 { SECTION(code) }\n"), "main", [])
-        cases.append({"id": "micro-" + name, "imgs": [img], "calls": [{"regs": [], "stk": []}], "sp": rl.SP, "ra": rl.RA, "keep": [],
+        cases.append({"id": "micro-" + name, "imgs": [img], "calls": [{"regs": [], "stk": []}], "sp": SP, "ra": RA, "keep": [],
                       "fuel": 40, "expect": {"status": st, "a0": [[]], "globals": [[]]}})
     res, _ = run_images(ctx, cases, "M: Mips_Run on hand-written images", emit=False,
                         invariants=("AsExpected", "ConventionKept", "TypeOK"), workers=2)
@@ -316,12 +329,79 @@ def micro(ctx):
     ctx.cov["mips_micro_images"] = len(cases)
 
 
+EDGE_CONSTS = [0x7FFF, 0x8000, 0x8001, 0xFFFF, 0x10000, 0x18000, 0xFFFF0000, 0xFFFF7FFF, 0xFFFF8000, -0x8000, -0x8001, -1,
+               -0x80000000, 0x7FFFFFFF, 40000]
+
+
+def edge_const_programs(bad, nvec):
+    """directed: constants on both sides of every 16-bit edge (the halves lui / ori / addiu carry) as returned constants, as
+    operands of + & | ^, as store values and as offsets from a global's address"""
+    from engines.c02 import int_vectors
+    from harness.irpatterns import B
+
+    out = []
+
+    def norm(c, t):
+        c &= 0xFFFFFFFF
+        return c - (1 << 32) if t == "i32" and c >> 31 else c
+
+    def name(c):
+        return ("m%x" % -c) if c < 0 else "%x" % c
+
+    def add(key, make, ptys, src):
+        out.append({"key": key, "make": make, "fn": "f", "vecs": [[0] * len(ptys), [1] * len(ptys)] + int_vectors(ptys, random.Random(key), nvec)[:1],
+                    "ext": [], "src": "harness/mipsrun.py edge_const_programs: " + src})
+
+    for c0 in EDGE_CONSTS:
+        for t in ("i32", "u32"):
+            c = norm(c0, t)
+
+            def mk_ret(c=c, t=t):
+                b = B("f", t, [t])
+                b.ret(b.c(c, t))
+                return b.m
+
+            add("mipsconst.ret.%s.%s" % (t, name(c0)), mk_ret, [t], "return %#x as %s" % (c0 & 0xFFFFFFFF, t))
+            for op, opn in (("+", "add"), ("&", "and"), ("|", "or"), ("^", "xor")):
+                if ("binop", op, t) in bad:
+                    continue
+
+                def mk_op(c=c, t=t, op=op):
+                    b = B("f", t, [t])
+                    b.ret(b.bin(b.p[0], op, b.c(c, t), t))
+                    return b.m
+
+                add("mipsconst.%s.%s.%s" % (opn, t, name(c0)), mk_op, [t], "x %s %#x on %s" % (op, c0 & 0xFFFFFFFF, t))
+
+        def mk_store(c=norm(c0, "u32")):
+            from ppci import ir
+            b = B("f", "u32", ["u32"])
+            p0 = b.glob("g", 8, bytes(8))
+            b.store(b.c(c, "u32"), b.off(p0, 4))
+            b.ret(b.bin(b.load(b.off(p0, 4), "u32"), "^", b.p[0], "u32"))
+            return b.m
+
+        add("mipsconst.store.%s" % name(c0), mk_store, ["u32"], "g[1] = %#x; return g[1] ^ x" % (c0 & 0xFFFFFFFF))
+    # offsets from a global's address on both sides of the 16-bit edges of the displacement field
+    for off in (0x7FFC, 0x8000, 0x8004, 0xFFFC, 0x10000):
+        def mk_off(off=off):
+            from ppci import ir
+            b = B("f", "u32", ["u32"])
+            p0 = b.glob("g", off + 8, bytes(off + 8))
+            b.store(b.p[0], b.off(p0, off))
+            b.ret(b.bin(b.load(b.off(p0, off), "u32"), "+", b.c(1, "u32"), "u32"))
+            return b.m
+
+        add("mipsconst.goff.%x" % off, mk_off, ["u32"], "*(g + %#x) = x; return *(g + %#x) + 1" % (off, off))
+    return out
+
+
 def programs_for(ctx, bad, thorough):
     from engines.c05rv import rv_programs
     progs = rv_programs(ctx, bad, thorough)
     for p in progs:
         p["src"] = p["src"].replace("rv_programs", "rv_programs (corpus shared with the riscv part)")
-    return progs
+    return edge_const_programs(bad, 4 if thorough else 3) + progs
 
 
 def c05_part(ctx, thorough, only=None):
@@ -350,7 +430,7 @@ def c05_part(ctx, thorough, only=None):
     cases, meta = [], []
     for r in ready:
         for h, img in r["images"].items():
-            cases.append({"id": r["p"]["key"], "imgs": [img], "sp": rl.SP, "ra": rl.RA, "keep": [], "fuel": FUEL,
+            cases.append({"id": r["p"]["key"], "imgs": [img], "sp": SP, "ra": RA, "keep": [], "fuel": FUEL,
                           "calls": [call_record(r["ptys"], v) for v in r["vecs"]]})
             meta.append((r, h))
     ctx.cov["mips_distinct_images_executed"] = len(cases)
